@@ -452,7 +452,27 @@ func replayB(idx int, it bItem, out *bOut) {
 						d += ".Except" + maskStr(E)
 					}
 					emit(op, expect{d + ".Emit", T, E, i, m})
+					// the same selection through the socket's other entry points (seed c04i: Local() built from
+					// the namespace's operator, without the sender's exclusion)
+					lop, ld := s.Local(), fmt.Sprintf("s%d.Local()", i+1)
+					if T != 0 {
+						lop, ld = lop.To(rooms(T)...), ld+".To"+maskStr(T)
+					}
+					if E != 0 {
+						lop, ld = lop.Except(rooms(E)...), ld+".Except"+maskStr(E)
+					}
+					emit(lop, expect{ld + ".Emit", T, E, i, m})
+					if T != 0 {
+						iop, id := s.In(rooms(T)...), fmt.Sprintf("s%d.In%s", i+1, maskStr(T))
+						if E != 0 {
+							iop, id = iop.Except(rooms(E)...), id+".Except"+maskStr(E)
+						}
+						emit(iop.Compress(true), expect{id + ".Compress(true).Emit", T, E, i, m})
+					}
 				}
+				// ... and the namespace's: Local(), In(), Compress()
+				emit(nsp.Local().In(rooms(T)...).Except(rooms(E)...), expect{fmt.Sprintf("nsp.Local().In%s.Except%s.Emit", maskStr(T), maskStr(E)), T, E, -1, m})
+				emit(nsp.Compress(false).Except(rooms(E)...).To(rooms(T)...), expect{fmt.Sprintf("nsp.Compress(false).Except%s.To%s.Emit", maskStr(E), maskStr(T)), T, E, -1, m})
 			}
 		}
 		exps = append(exps, expect{"nsp.Emit", 0, 0, -1, m})
